@@ -45,3 +45,6 @@ Fixpoint str_in (s : string) (l : list string) : bool :=
 (* render helpers for verdict strings *)
 Fixpoint concat_s (l : list string) : string :=
   match l with [] => "" | x :: r => x ++ concat_s r end.
+
+(* run-length helper used by the harness for long runs of one byte *)
+Definition rep (b : N) (n : Z) : list N := repeat b (Z.to_nat n).
